@@ -2,19 +2,17 @@ import Model.Dispatch
 /-!
 # C05 (no bytes from the network can crash the application) — response-kind dispatch
 
-Model: `Model/Dispatch.lean` (`fx = false`: the code that exists).
+Model: `Model/Dispatch.lean` (the code after the repairs of KF-C05-22, 23, 24, 25).
 
-FULL PROPERTY (false for the unchanged code, see the counterexample theorems):
+FULL PROPERTY, proved here without exclusion:
 
-    ∀ site kind, (dispatch false site kind).isCrash = false
-    ∀ cfg frames, (hsRun (dispatch false) cfg .awaitSupported frames).isCrashed = false
-    ∀ site frames, siteRun (dispatch false) site frames = none
+    ∀ site kind, (dispatch site kind).isCrash = false                                  C05_dispatch_total
+    ∀ site frames, siteRun dispatch site frames = none                                 C05_stream_total
+    ∀ cfg frames, (hsRun dispatch cfg .awaitSupported frames).isCrashed = false        C05_handshake_total
 
-Proved here: the same statements with exactly the known-bad cells excluded (`knownBad`, a predicate,
-not a list of inputs), exactness (the unchanged code crashes at a cell IFF the cell is known-bad),
-one kernel-checked counterexample per known finding, and the lifting lemmas from the finite table
-(`decide` over all 14 × 18 cells) to every sequence of response frames.
-The statements without exclusion are proved for `fx = true` in `Proofs/C05DispatchFixed.lean`.
+by `decide` over all 14 × 18 cells of the table and the lifting lemmas from the finite table to every
+sequence of response frames (`siteRun_safe`, `hsRun_safe`, generic in the table). The histories that killed
+the process before the repairs (the `ops` of the findings) are regression examples.
 -/
 namespace C05Dispatch
 open Dispatch
@@ -26,46 +24,25 @@ theorem all_cells {P : Site → FrameKind → Prop}
 
 /-! ## the table -/
 
-/-- EXACTNESS: the unchanged code crashes at (site, kind) iff the cell is one of the known-bad ones. -/
-theorem C05_dispatch_crash_iff : ∀ s k, (dispatch false s k).isCrash = knownBad s k :=
-  all_cells (by decide)
+/-- FULL: no frame kind crashes any dispatch site. -/
+theorem C05_dispatch_total : ∀ s k, (dispatch s k).isCrash = false := all_cells (by decide)
 
-/-- PARTIAL (excluded: `knownBad`): at every other cell no frame kind crashes the site. -/
-theorem C05_dispatch_total_partial (s : Site) (k : FrameKind) (h : knownBad s k = false) :
-    (dispatch false s k).isCrash = false := by
-  rw [C05_dispatch_crash_iff, h]
+/-- the cells that crashed before the repairs are `error` now: the two heartbeat `default:` arms
+    (15 kinds each: everything but SUPPORTED and the two error kinds) and AUTH_CHALLENGE with a nil
+    challenger -/
+theorem C05_former_crash_cells_are_errors :
+    (∀ k, k ≠ .supported → k.isError = false →
+      dispatch .connHeartBeat k = .error ∧ dispatch .controlHeartBeat k = .error) ∧
+    dispatch (.authHandshake true) .authChallenge = .error := by
+  refine ⟨fun k => ?_, by decide⟩
+  cases k <;> decide
 
-/-- every crash of the table is one of three shapes -/
-theorem C05_dispatch_crash_shapes : ∀ s k h, dispatch false s k = .crash h →
-    (s = .connHeartBeat ∧ h = .panicDefault) ∨ (s = .controlHeartBeat ∧ h = .panicDefault) ∨
-    (s = .authHandshake true ∧ k = .authChallenge ∧ h = .nilDeref) := by
-  have : ∀ s k, ∀ h ∈ [How.panicDefault, How.nilDeref, How.assertFail], dispatch false s k = .crash h →
-      (s = .connHeartBeat ∧ h = .panicDefault) ∨ (s = .controlHeartBeat ∧ h = .panicDefault) ∨
-      (s = .authHandshake true ∧ k = .authChallenge ∧ h = .nilDeref) := all_cells (by decide)
-  intro s k h
-  exact this s k h (by cases h <;> decide)
-
-/-- KF-C05-disp-1: Conn.heartBeat answers READY (any frame other than SUPPORTED / ERROR) with `panic`. -/
-theorem C05_cex_conn_heartbeat :
-    dispatch false .connHeartBeat .ready = .crash .panicDefault ∧
-    dispatch false .connHeartBeat .resultVoid = .crash .panicDefault := by decide
-
-/-- KF-C05-disp-2: controlConn.heartBeat likewise. -/
-theorem C05_cex_control_heartbeat :
-    dispatch false .controlHeartBeat .ready = .crash .panicDefault ∧
-    dispatch false .controlHeartBeat .resultVoid = .crash .panicDefault := by decide
-
-/-- KF-C05-disp-3: AUTH_CHALLENGE while `challenger` is nil dereferences nil. -/
-theorem C05_cex_nil_challenger :
-    dispatch false (.authHandshake true) .authChallenge = .crash .nilDeref := by decide
-
-/-- non-vacuity: the exclusion leaves 221 of the 252 cells, with every non-crash outcome present -/
-example : ((Site.all.flatMap fun s => FrameKind.all.filter (knownBad s)).length = 31) ∧
-    Site.all.length * FrameKind.all.length = 252 := by decide
-example : dispatch false .startup .ready = .handled ∧ dispatch false .startup .supported = .error ∧
-    dispatch false .handleEvent .ready = .ignored ∧ dispatch false .handleNodeEvent .error = .ignored ∧
-    dispatch false .connHeartBeat .supported = .handled ∧ dispatch false .executeQuery .unprepared = .handled ∧
-    dispatch false (.authHandshake false) .authChallenge = .handled := by decide
+/-- non-vacuity: every non-crash outcome is present in the table -/
+example : Site.all.length * FrameKind.all.length = 252 := by decide
+example : dispatch .startup .ready = .handled ∧ dispatch .startup .supported = .error ∧
+    dispatch .handleEvent .ready = .ignored ∧ dispatch .handleNodeEvent .error = .ignored ∧
+    dispatch .connHeartBeat .supported = .handled ∧ dispatch .executeQuery .unprepared = .handled ∧
+    dispatch (.authHandshake false) .authChallenge = .handled := by decide
 
 /-! ## lifting: a site fed any sequence of frames -/
 
@@ -82,27 +59,15 @@ theorem siteRun_safe (tbl : Site → FrameKind → Outcome) (s : Site) (fs : Lis
     (h : ∀ k ∈ fs, (tbl s k).isCrash = false) : siteRun tbl s fs = none :=
   (siteRun_eq_none_iff tbl s fs).2 h
 
-/-- PARTIAL: heartbeat loops, the event stream, any request site: no sequence of response frames
-    that avoids the known-bad cells crashes it. -/
-theorem C05_stream_total_partial (s : Site) (fs : List FrameKind)
-    (h : ∀ k ∈ fs, knownBad s k = false) : siteRun (dispatch false) s fs = none :=
-  siteRun_safe _ _ _ fun k hk => C05_dispatch_total_partial s k (h k hk)
+/-- FULL: heartbeat loops, the event stream, any request site: no sequence of response frames
+    crashes it. -/
+theorem C05_stream_total (s : Site) (fs : List FrameKind) : siteRun dispatch s fs = none :=
+  siteRun_safe _ _ _ fun k _ => C05_dispatch_total s k
 
-/-- EXACTNESS: a frame sequence kills the process at a site iff it contains a known-bad frame. -/
-theorem C05_stream_crash_iff (s : Site) (fs : List FrameKind) :
-    siteRun (dispatch false) s fs ≠ none ↔ ∃ k ∈ fs, knownBad s k = true := by
-  rw [Ne, siteRun_eq_none_iff]
-  simp [C05_dispatch_crash_iff]
-
-/-- counterexample as a history: three good heartbeats, then the server answers OPTIONS with READY -/
-theorem C05_cex_heartbeat_history :
-    siteRun (dispatch false) .connHeartBeat [.supported, .supported, .error, .ready, .supported]
-      = some .panicDefault ∧
-    siteRun (dispatch false) .controlHeartBeat [.supported, .resultRows] = some .panicDefault := by
-  decide
-
-example : siteRun (dispatch false) .connHeartBeat [.supported, .error, .unprepared, .supported] = none := by
-  decide
+/-- regression (KF-C05-22/23 as histories): three good heartbeats, then the server answers OPTIONS
+    with READY; a control heartbeat answered with RESULT/Rows — the loops go on -/
+example : siteRun dispatch .connHeartBeat [.supported, .supported, .error, .ready, .supported] = none ∧
+    siteRun dispatch .controlHeartBeat [.supported, .resultRows] = none := by decide
 
 /-! ## lifting: the handshake machine (options → startup → authenticateHandshake loop) -/
 
@@ -192,72 +157,39 @@ theorem hsRun_safe (tbl : Site → FrameKind → Outcome) (cfg : AuthCfg)
     intro s hs
     exact ih _ (hsStep_inv tbl cfg h0 h1 h2 hn s k hs)
 
-/-- PARTIAL (excluded: an authenticator that returns a nil next challenger, which is what
-    gocql.PasswordAuthenticator does): no sequence of response frames crashes the handshake. -/
-theorem C05_handshake_total_partial (cfg : AuthCfg) (fs : List FrameKind) (h : cfg.nilAfter = none) :
-    (hsRun (dispatch false) cfg .awaitSupported fs).isCrashed = false :=
-  hsRun_safe _ cfg (fun k => C05_dispatch_total_partial _ k (by cases k <;> rfl))
-    (fun k => C05_dispatch_total_partial _ k (by cases k <;> rfl))
-    (fun k => C05_dispatch_total_partial _ k (by cases k <;> rfl))
-    (Or.inl h) fs _ trivial
+/-- FULL: no sequence of response frames crashes the handshake, whatever the authenticator returns
+    (in particular gocql.PasswordAuthenticator, whose Challenge returns a nil next challenger). -/
+theorem C05_handshake_total (cfg : AuthCfg) (fs : List FrameKind) :
+    (hsRun dispatch cfg .awaitSupported fs).isCrashed = false :=
+  hsRun_safe _ cfg (fun k => C05_dispatch_total _ k) (fun k => C05_dispatch_total _ k)
+    (fun k => C05_dispatch_total _ k) (Or.inr fun k => C05_dispatch_total _ k) fs _ trivial
 
-/-- KF-C05-disp-3 as a history: PasswordAuthenticator, server sends SUPPORTED, AUTHENTICATE,
-    AUTH_CHALLENGE — the third frame dereferences the nil challenger. Two steps are not enough. -/
-theorem C05_cex_password_handshake :
-    hsRun (dispatch false) passwordAuth .awaitSupported [.supported, .authenticate, .authChallenge]
-      = .crashed .nilDeref ∧
-    hsRun (dispatch false) passwordAuth .awaitSupported [.supported, .authenticate]
-      = .authLoop 1 true := by decide
-
-/-- EXACTNESS for PasswordAuthenticator: the handshake kills the process iff the server's first three
-    frames are SUPPORTED, AUTHENTICATE, AUTH_CHALLENGE. -/
-theorem C05_password_handshake_crash_iff (fs : List FrameKind) :
-    (hsRun (dispatch false) passwordAuth .awaitSupported fs).isCrashed = true ↔
-      [.supported, .authenticate, .authChallenge] <+: fs := by
-  match fs with
-  | [] => simp [hsRun, HS.isCrashed]
-  | a :: r1 =>
-    cases a <;> try (simp [hsRun, hsStep, dispatch, action, desc, firstArm, Pat.matches, outcomeOf,
-      hsRun_done, HS.isCrashed, FrameKind.isError]; done)
-    -- a = supported
-    match r1 with
-    | [] => simp [hsRun, hsStep, dispatch, action, desc, firstArm, Pat.matches, outcomeOf, HS.isCrashed]
-    | b :: r2 =>
-      cases b <;> try (simp [hsRun, hsStep, dispatch, action, desc, firstArm, Pat.matches, outcomeOf,
-        hsRun_done, HS.isCrashed, FrameKind.isError, passwordAuth]; done)
-      -- b = authenticate
-      match r2 with
-      | [] => simp [hsRun, hsStep, dispatch, action, desc, firstArm, Pat.matches, outcomeOf, HS.isCrashed,
-          FrameKind.isError, passwordAuth]
-      | c :: r3 =>
-        cases c <;> simp [hsRun, hsStep, dispatch, action, desc, firstArm, Pat.matches, outcomeOf,
-          hsRun_done, hsRun_crashed, HS.isCrashed, FrameKind.isError, passwordAuth]
-
-/-- a non-nil challenger chain is safe whatever the server sends (instance of the partial theorem) -/
-example (fs : List FrameKind) :
-    (hsRun (dispatch false) ⟨true, true, none⟩ .awaitSupported fs).isCrashed = false :=
-  C05_handshake_total_partial _ fs rfl
-example : hsRun (dispatch false) ⟨true, true, none⟩ .awaitSupported
+/-- regression (KF-C05-24 as a history): PasswordAuthenticator, server sends SUPPORTED, AUTHENTICATE,
+    AUTH_CHALLENGE — the handshake ends with an error; a custom authenticator whose SECOND Challenge
+    returns nil likewise one AUTH_CHALLENGE later -/
+example : hsRun dispatch passwordAuth .awaitSupported [.supported, .authenticate, .authChallenge]
+    = .done false := by decide
+example : hsRun dispatch ⟨true, true, some 1⟩ .awaitSupported
+    [.supported, .authenticate, .authChallenge, .authChallenge] = .done false := by decide
+/-- non-vacuity: a challenger chain completes -/
+example : hsRun dispatch ⟨true, true, none⟩ .awaitSupported
     [.supported, .authenticate, .authChallenge, .authChallenge, .authSuccess] = .done true := by decide
-/-- a custom authenticator whose SECOND Challenge returns nil dies one AUTH_CHALLENGE later -/
-example : hsRun (dispatch false) ⟨true, true, some 1⟩ .awaitSupported
-    [.supported, .authenticate, .authChallenge, .authChallenge] = .crashed .nilDeref := by decide
 
 /-! ## UNPREPARED re-enters executeQuery / executeBatch: the recursion depth is whatever the server
-    wants (no crash cell in the table; recorded as a resource finding, see props/C05.disp.json) -/
+    wants (no crash cell in the table; recorded as a resource finding, KF-C05-26) -/
 
 theorem C05_retry_depth_unbounded (n : Nat) :
-    retryDepth false .executeQuery (List.replicate n .unprepared) = n ∧
-    retryDepth false .executeBatch (List.replicate n .unprepared) = n := by
+    retryDepth .executeQuery (List.replicate n .unprepared) = n ∧
+    retryDepth .executeBatch (List.replicate n .unprepared) = n := by
   induction n with
   | zero => exact ⟨rfl, rfl⟩
   | succ n ih =>
-    have h1 : action false .executeQuery .unprepared = some .retry := by decide
-    have h2 : action false .executeBatch .unprepared = some .retry := by decide
+    have h1 : action .executeQuery .unprepared = some .retry := by decide
+    have h2 : action .executeBatch .unprepared = some .retry := by decide
     simp [List.replicate_succ, retryDepth, h1, h2, ih.1, ih.2]
 
 /-- ... and only UNPREPARED does that, only at those two sites -/
-theorem C05_retry_only_unprepared : ∀ s k, action false s k = some .retry →
+theorem C05_retry_only_unprepared : ∀ s k, action s k = some .retry →
     (s = .executeQuery ∨ s = .executeBatch) ∧ k = .unprepared := all_cells (by decide)
 
 end C05Dispatch
